@@ -761,9 +761,9 @@ def prepare(mode, group, text, code):
     name = ins.name
     pre = ""
     g1 = ins.additional_info.g1.value if hasattr(ins, "additional_info") else 0
-    if g1 & 2:
+    if group == "string" and g1 & 2:
         pre = "repne:"
-    elif g1 & 12:
+    elif group == "string" and g1 & 12:
         pre = "rep:"
     args = list(ins.args)
     is_lea = name == "LEA"
@@ -1128,52 +1128,105 @@ class Emu(object):
         return out
 
 
-def emu_isolated(mode, backend, code, sts):
-    """Run every state of @sts through a jitter living in a forked child and stream the results back. Code jitted by the GCC
-    backend runs inside the emulating process: when it crashes (SIGFPE, SIGSEGV...) only the child dies; the case it was
-    executing is reported with outcome 'crash:<signal>' and a new child continues with the next case."""
-    import pickle
-    import signal
-    results = []
-    while len(results) < len(sts):
-        first = len(results)
-        rfd, wfd = os.pipe()
+class IsoEmu(object):
+    """A jitter living in a forked child, fed through pipes. Code jitted by the GCC backend runs inside the emulating process:
+    when it crashes (SIGFPE, SIGSEGV...) only the child dies; the case it was executing is reported with outcome
+    'crash:<signal>' and a new child continues with the next case."""
+    CHUNK = 20          # states per request: request and reply both stay below the pipe buffer size (no write/write deadlock)
+
+    def __init__(self, mode, backend):
+        self.mode = mode
+        self.backend = backend
+        self.pid = None
+        self.to = self.frm = None
+
+    def _spawn(self):
+        import pickle
+        p2c_r, p2c_w = os.pipe()
+        c2p_r, c2p_w = os.pipe()
         pid = os.fork()
         if pid == 0:
-            code_ = 0
+            rc = 0
             try:
-                os.close(rfd)
-                out = os.fdopen(wfd, "wb")
-                emu = Emu(mode, backend)
-                emu.load(code)
-                for st in sts[first:]:
-                    pickle.dump(emu.run(st), out, protocol=pickle.HIGHEST_PROTOCOL)
-                    out.flush()
-                out.close()
+                os.close(p2c_w)
+                os.close(c2p_r)
+                inp = os.fdopen(p2c_r, "rb")
+                out = os.fdopen(c2p_w, "wb")
+                emu = Emu(self.mode, self.backend)
+                last = None
+                while True:
+                    try:
+                        code, sts = pickle.load(inp)
+                    except EOFError:
+                        break
+                    if code != last:
+                        emu.load(code)
+                        last = code
+                    for st in sts:
+                        pickle.dump(emu.run(st), out, protocol=pickle.HIGHEST_PROTOCOL)
+                        out.flush()
             except BaseException:
-                code_ = 3
+                rc = 3
             finally:
-                os._exit(code_)
-        os.close(wfd)
-        with os.fdopen(rfd, "rb") as inp:
-            while True:
-                try:
-                    results.append(pickle.load(inp))
-                except EOFError:
-                    break
-                except Exception:
-                    break
-        _, status = os.waitpid(pid, 0)
-        if len(results) < len(sts):
-            if os.WIFSIGNALED(status):
-                try:
-                    name = signal.Signals(os.WTERMSIG(status)).name
-                except ValueError:
-                    name = "SIG%d" % os.WTERMSIG(status)
-                results.append({"outcome": "crash:" + name})
-            else:
-                results.append({"outcome": "crash:exit%d" % os.WEXITSTATUS(status)})
-    return results
+                os._exit(rc)
+        os.close(p2c_r)
+        os.close(c2p_w)
+        self.pid = pid
+        self.to = os.fdopen(p2c_w, "wb")
+        self.frm = os.fdopen(c2p_r, "rb")
+
+    def _reap(self):
+        import signal
+        for f in (self.to, self.frm):
+            try:
+                f.close()
+            except Exception:
+                pass
+        _, status = os.waitpid(self.pid, 0)
+        self.pid = None
+        if os.WIFSIGNALED(status):
+            try:
+                return "crash:" + signal.Signals(os.WTERMSIG(status)).name
+            except ValueError:
+                return "crash:SIG%d" % os.WTERMSIG(status)
+        return "crash:exit%d" % os.WEXITSTATUS(status)
+
+    def run(self, code, sts):
+        import pickle
+        results = []
+        while len(results) < len(sts):
+            if self.pid is None:
+                self._spawn()
+            chunk = sts[len(results):len(results) + self.CHUNK]
+            got = 0
+            try:
+                pickle.dump((code, chunk), self.to, protocol=pickle.HIGHEST_PROTOCOL)
+                self.to.flush()
+                while got < len(chunk):
+                    results.append(pickle.load(self.frm))
+                    got += 1
+            except (EOFError, BrokenPipeError, pickle.UnpicklingError, OSError):
+                pass
+            if got < len(chunk):
+                results.append({"outcome": self._reap()})
+        return results
+
+    def close(self):
+        if self.pid is not None:
+            try:
+                self.to.close()
+                self.frm.close()
+                os.waitpid(self.pid, 0)
+            except Exception:
+                pass
+            self.pid = None
+
+
+def emu_isolated(mode, backend, code, sts):
+    key = ("iso", mode, backend, os.getpid())
+    if key not in _W:
+        _W[key] = IsoEmu(mode, backend)
+    return _W[key].run(code, sts)
 
 
 def compare(form, st, nat, emu):
@@ -1271,7 +1324,7 @@ CAP_QUICK = 50
 CAP_THOROUGH = 500
 MAX_WITNESS_PER_SIG = 2
 QUICK_32_STRIDE = 3          # quick tier executes every third admitted 32-bit mode form
-GCC_STRIDE = 3               # thorough tier: the GCC backend runs every third form (and every floating point form)
+GCC_STRIDE = 4               # thorough tier: the GCC backend runs every fourth form (and every floating point form)
 
 
 def _load():
